@@ -255,7 +255,14 @@ func (env *Env) elab(x SExpr) Term {
 					return Term{S: ref, Sort: "Int", T: types.NewPointer(st.Elem())}
 				}
 			}
-			efail("& is supported only on elements of slices of objects: %s", x.X)
+			// address of an embedded struct/array field
+			if sel, ok := x.X.(*SSel); ok {
+				t := env.elabSel(sel, true)
+				if _, isPtr := typeUnder[*types.Pointer](t.T); isPtr && t.Sort == "Int" {
+					return t
+				}
+			}
+			efail("& is supported only on elements of slices of objects and on embedded object fields: %s", x.X)
 		}
 		efail("unsupported unary %s", x.Op)
 	case *SBinary:
